@@ -68,7 +68,7 @@ example : clean C13Order.Example.types ["pets"] C13Order.Example.payload
 example : (clean C13Order.Example.types ["pets"] C13Order.Example.payload).1
     = [("pets", .arr [.obj [("name", .str "rex")], .null, .obj [("id", .str "2"), ("lives", .num "9")], .num "3"]),
        ("owner", .obj [("__typename", .str "Person"), ("id", .str "o"), ("pet", C13Order.Example.dog)])] := by
-  simp [clean, cleanList, cleanHere, J.lookup, J.eraseKey, J.setKey, C13Order.Example.types,
+  simp [clean, cleanW, cleanList, cleanListW, cleanHere, J.lookup, J.eraseKey, J.setKey, C13Order.Example.types,
     C13Order.Example.payload, C13Order.Example.dog, C13Order.Example.cat]
 
 /-- **Without `__typename` the order of the type table decides — for the recursive scrubber too**
@@ -86,7 +86,7 @@ theorem C13_clean_untyped_order_dependent :
         [("node", .obj [("id", .str "N1_1"), ("f", .str "x")])]).1
       = [("node", .obj [("id", .str "N1_1"), ("f", .str "x")])] ∧
     TypedAt ["node"] [("node", .obj [("id", .str "N1_1"), ("f", .str "x")])] = false := by
-  refine ⟨?_, ?_, by decide⟩ <;> simp [clean, cleanHere, J.lookup, J.eraseKey, J.setKey]
+  refine ⟨?_, ?_, by decide⟩ <;> simp [clean, cleanW, cleanHere, J.lookup, J.eraseKey, J.setKey]
 
 /-- **`ScrubFields.Clean` over a whole table does not depend on the order of any of its type
     tables.** Two tables with the same paths in the same order whose type tables are pairwise
